@@ -26,7 +26,16 @@
        library prints; what else the library accepts (e.g. '1_0=a') is not judged;
      * "encoded name" for the ordering clause = the list of encoded components (FormalName) and
        the Name TLV-VALUE (their concatenation).  The full Name TLV is not compared: its outer
-       length field precedes the components, so no implementation can order it canonically.   *)
+       length field precedes the components, so no implementation can order it canonically.
+     * "comparing" = lexicographic comparison of the OCTETS of the encodings.  The library has no comparison function
+       of its own; a component is bytes | bytearray | memoryview (BinaryStr) and Name.decode / from_bytes hand out
+       zero-copy memoryviews, on which Python defines == but no '<' (`decoded_a < decoded_b` raises TypeError, every
+       mixed combination works).  Nothing is ordered WRONGLY by that, and the statement does not promise that a
+       container is orderable by Python's '<'; for decoded x decoded the clause is therefore evaluated on
+       bytes(component).  (Observation reported on the unchanged tree, triaged as not contradicting the statement.)
+     * refusal is refusal whatever the exception class ('seg=-1' raises struct.error at every entry point alike), and
+       what the library accepts outside this grammar at every entry point alike ('seg=1_3' = seg=13, '1_0=A' = 10=A:
+       int() allows '_') denotes one component everywhere and prints back to reference text: not judged.   *)
 EXTENDS Naturals, Sequences, FiniteSets, TLC
 
 Err  == <<999>>                          \* failure sentinel for byte/text sequences
@@ -180,6 +189,29 @@ UriToComp(s) ==
           ELSE LET t == DecVal(pre, 1, 0) IN
                IF t = 0 \/ t > 65535 THEN CErr
                ELSE LET v == PctDecode(post) IN IF v = Err THEN CErr ELSE Comp(t, v)
+
+\* ---- arbitrary component TEXT (any Unicode string = the sequence of its UTF-8 octets) at the component-level entry points.
+\* Component.from_str documents "all characters should be from CHARSET, otherwise ValueError": the texts it has to accept
+\* are those of StrictComp (every octet of a non-ASCII character is outside CHARSET, whatever Unicode class the character
+\* has: letter, decimal digit of another script, full-width form of a CHARSET character, mark, character outside the BMP).
+\* A str element of a component list and a piece of a Name URI are escaped first: TextComp is the component a text denotes
+\* wherever it is an accepted input form.
+\* Interpretation (least likely to alarm): refusing a text with characters outside CHARSET is what the documentation says,
+\* but the statement ("every accepted input form of the same name normalises to the same components") is also met by an
+\* entry point that accepts such a text with its Name-level meaning TextComp; so acceptance is judged, not demanded or
+\* forbidden.  A text the reference grammar does not cover (TextComp = CErr, e.g. '1_0=a') is not judged against the
+\* reference; there only the statement itself is applied: what Component.from_str accepts must normalise (through the
+\* Name-level reading of the same text) to the same component.
+StrictComp(s) == UriToComp(s)
+TextComp(s)   == UriToComp(EscapeText(s))
+Ans(c) == IF c = CErr THEN [k |-> "err", c |-> CErr] ELSE [k |-> "ok", c |-> c]
+\* verdict on one text: got = answer of Component.from_str(s), viaName = answer of the Name-level reading of [s]
+\* (both [k |-> "ok", c |-> component] or [k |-> "err", ...])
+FromStrClauses(s, got, viaName) ==
+  (IF got.k = "ok" /\ TextComp(s) # CErr /\ got.c # TextComp(s) THEN {"comp_from_str"} ELSE {})
+  \cup (IF got.k = "err" /\ StrictComp(s) # CErr THEN {"comp_from_str_refused"} ELSE {})
+  \cup (IF got.k = "ok" /\ TextComp(s) = CErr /\ (viaName.k = "err" \/ viaName.c # got.c)
+        THEN {"comp_from_str_alone"} ELSE {})
 
 \* "no naming-convention shorthand": whatever precedes '=' is a decimal type number
 HasShorthand(s) == \E e \in EqPos(s) : ~AllDigits(SubSeq(s, 1, e - 1))
